@@ -744,6 +744,13 @@ impl<'a> Tr<'a> {
             let a = self.expr(&c.args[0], None)?;
             return Ok(Out { pre: a.pre, term: a.term, ty: Ty::Str, diverges: false });
         }
+        if last == "from_bytes_with_nul_unchecked" {
+            let a = self.expr(&c.args[0], Some(&Ty::Slice(Box::new(Ty::Int(IntTy::U8)))))?;
+            let t = self.fresh("t");
+            let mut pre = a.pre;
+            pre.push(format!("let {} ← Rs.cstrFromBytesWithNulUnchecked {}", t, a.term));
+            return Ok(Out { pre, term: t, ty: Ty::Slice(Box::new(Ty::Int(IntTy::U8))), diverges: false });
+        }
         if last == "from_u32_unchecked" {
             let a = self.expr(&c.args[0], Some(&Ty::Int(IntTy::U32)))?;
             let t = self.fresh("t");
